@@ -50,7 +50,9 @@ PAIR_NAMES = [('uuid', 'uuid2'), ('uuid', 'uuid_in_list'), ('uuid_in_dict', 'mpr
               ('h_leaf', 'h_mid'), ('h_leaf', 'h_base2'), ('h_mid', 'h_base2'), ('h_sub_nested', 'h_exact'),
               ('struct_time', 'struct_time2'), ('float_info', 'version_info'), ('stat', 'stat'),
               ('cyclic', 'cyclic'), ('shared_list', 'shared_list'), ('cyclic', 'uuid'), ('cyclic_twice', 'depth'),
-              ('long_str', 'long_str_nested'), ('commented', 'commented'), ('ast', 'ast'), ('h_pred', 'h_unreg')]
+              ('long_str', 'long_str_nested'), ('commented', 'commented'), ('long_list', 'tiny'), ('tiny3', 'long_list'),
+              ('fits_exactly', 'tiny3'), ('reentrant', 'reentrant'), ('oldstyle', 'uuid'), ('h_re_sub', 'h_re'),
+              ('comment_wrapping', 'commented'), ('ast', 'ast'), ('h_pred', 'h_unreg')]
 PROBE_RANGES = {}   # probe -> (funcname, lo, hi)
 
 
@@ -89,6 +91,27 @@ class HUnreg(HBase):
 
 class HBad(HBase):
     pass
+
+
+class HRe(HBase):
+    """registered directly and then again by name (pending at start)"""
+
+
+class HReSub(HRe):
+    pass
+
+
+class Reentrant:
+    def __init__(self, inner):
+        self.inner = inner
+
+
+class OldStyle:
+    def __init__(self, x):
+        self.x = x
+
+    def __repr__(self):
+        return 'OldStyle(%s)' % P.pformat(self.x, width=200)
 
 
 class HBase2:
@@ -149,6 +172,22 @@ def setup():
     @register_pretty(predicate=lambda v: isinstance(v, HPred))
     def p_pred(v, ctx):
         return pretty_call(ctx, type(v), *v.a, pred=True)
+
+    @register_pretty(HRe)
+    def p_re_old(v, ctx):
+        return pretty_call(ctx, type(v), *v.a, printer='direct')
+
+    @register_pretty(_key(HRe))
+    def p_re_new(v, ctx):
+        return pretty_call(ctx, type(v), *v.a, printer='by-name')
+
+    from prettyprinter.doc import contextual
+
+    @register_pretty(Reentrant)
+    def p_reent(v, ctx):
+        def evaluator(indent, column, page_width, ribbon_width):
+            return 'Reentrant<%s>' % P.pformat(v.inner, width=200).replace('\n', ' ')
+        return contextual(evaluator)
 
     @register_pretty(HBad)
     def p_bad(v, ctx):
@@ -217,6 +256,16 @@ def setup():
     add(('long_bytes', 'layout', b'ab\x00' * 40, {'width': 30}))
     # -- comments
     add(('commented', 'layout', {'a': comment([1, comment(2, 'two')], 'top'), 'b': trailing_comment([1, 2], 'more')}, {'width': 30}))
+    long_note = 'the quick brown fox keeps running through the forest until it reaches the river bank at dawn'
+    add(('comment_wrapping', 'layout', [comment([1, 2, 3], long_note), comment('x', 'short')], {'width': 40}))
+    add(('long_list', 'layout', [100000 + i for i in range(30)], {}))
+    add(('tiny', 'layout', [1], {}))
+    add(('tiny3', 'layout', [1, 2, 3], {}))
+    add(('fits_exactly', 'layout', {'k': list(range(20))}, {'width': 79}))
+    add(('reentrant', 'layout', [Reentrant([1, 2, 3]), {'k': Reentrant({'b': 1, 'a': [u]})}], {}))
+    add(('oldstyle', 'plain', {'old': OldStyle([1, 2, {'z': 1, 'a': u}])}, {}))
+    add(('h_re_sub', 'hlazy', HReSub(1), {}))
+    add(('h_re', 'hlazy', [HRe(2), HReSub()], {}))
     # -- shared / cyclic values handed to several threads
     add(('cyclic', 'shared', cyc, {}))
     add(('cyclic_twice', 'shared', [cyc, cyc], {'width': 30}))
@@ -254,17 +303,24 @@ def _locate_probes():
                     regs = [c for c in ast.walk(node) if isinstance(c, ast.Call) and
                             isinstance(c.func, ast.Call) and
                             getattr(c.func.func, 'id', '') == 'register_pretty']
+                    stmt_lo = min(getattr(s, 'lineno', 10 ** 9) for s in node.body)
+                    if regs:
+                        # the promotion window: membership test passed, new printer not yet live
+                        PROBE_RANGES['parked_between_check_and_register_%d' % n] = (
+                            'is_registered', stmt_lo, regs[0].end_lineno)
                     if pops:
-                        stmt_lo = min(getattr(s, 'lineno', 10 ** 9) for s in node.body)
                         PROBE_RANGES['parked_between_check_and_pop_%d' % n] = (
                             'is_registered', stmt_lo, pops[0].lineno)
                         if regs:
                             PROBE_RANGES['parked_between_pop_and_register_%d' % n] = (
                                 'is_registered', pops[0].end_lineno + 1, regs[0].end_lineno)
+                    if regs or pops:
                         n += 1
             for node in ast.walk(fn):
                 if isinstance(node, ast.For):
                     PROBE_RANGES['parked_in_supertype_loop'] = ('is_registered', node.lineno, node.end_lineno)
+        if isinstance(fn, ast.FunctionDef) and fn.name == 'decorator':
+            PROBE_RANGES.setdefault('parked_in_register_pretty_decorator', ('decorator', fn.lineno, fn.end_lineno))
         if isinstance(fn, ast.FunctionDef) and fn.name == 'pretty_cnamedtuple':
             PROBE_RANGES['parked_in_struct_seq_cache_fill'] = ('pretty_cnamedtuple', fn.lineno, fn.end_lineno)
         if isinstance(fn, ast.FunctionDef) and fn.name == 'evaluator':
@@ -317,7 +373,7 @@ def _measure_serial_steps():
 
 
 # ------------------------------------------------------------------ generation
-GROUP_W = [('lazy', 5), ('hlazy', 4), ('plain', 2), ('cache', 2), ('layout', 1), ('shared', 1)]
+GROUP_W = [('lazy', 5), ('hlazy', 4), ('plain', 2), ('cache', 2), ('layout', 2), ('shared', 1)]
 
 
 def _pick_item(rng):
